@@ -136,7 +136,9 @@ def add (s : NodeIds) (g : Int) : Status × Nat × NodeIds :=
   | none =>
     let r := s.addCore g
     let s1 := r.2.2
-    (.ok, r.2.1, { s1 with sorted := s1.sorted.insertIdx (insertPoint s.keys g) (g, r.2.1) })
+    let ip := insertPoint s.keys g
+    -- "shift down to clear insert_point", then "insert in empty location"
+    (.ok, r.2.1, { s1 with sorted := s1.sorted.take ip ++ (g, r.2.1) :: s1.sorted.drop ip })
 
 /-! ### unused-global pool -/
 
